@@ -386,3 +386,43 @@ func verifC11Moments(maxN int) {
 
 func VerifHarness_C11_Moments_3() { verifC11Moments(3) }
 func VerifHarness_C11_Moments_4() { verifC11Moments(4) }
+
+// C11-O7: aggregations over vector(n), the series with the empty label set:
+// every operator and grouping clause yields one series with no labels whose
+// value is the aggregate of that one input.
+func VerifHarness_C11_OverVector() {
+	ops := []struct {
+		op   logql.VectorOp
+		want float64
+	}{{logql.VectorOpSum, 2.5}, {logql.VectorOpAvg, 2.5}, {logql.VectorOpMin, 2.5}, {logql.VectorOpMax, 2.5}, {logql.VectorOpCount, 1},
+		{logql.VectorOpStddev, 0}, {logql.VectorOpStdvar, 0}, {logql.VectorOpTopk, 2.5}, {logql.VectorOpBottomk, 2.5}, {logql.VectorOpSort, 2.5}, {logql.VectorOpSortDesc, 2.5}}
+	o := ops[vsymChoice("op", len(ops))]
+	expr := &logql.VectorAggregationExpr{Op: o.op, Expr: &logql.VectorExpr{Value: 2.5}}
+	if o.op == logql.VectorOpTopk || o.op == logql.VectorOpBottomk {
+		k := 1 + vsymChoice("k", 2)
+		expr.Parameter = &k
+	}
+	if o.op != logql.VectorOpSort && o.op != logql.VectorOpSortDesc {
+		switch vsymChoice("grouping", 4) {
+		case 1:
+			expr.Grouping = &logql.Grouping{Labels: []logql.Label{"a"}}
+		case 2:
+			expr.Grouping = &logql.Grouping{Labels: []logql.Label{"a"}, Without: true}
+		case 3:
+			expr.Grouping = &logql.Grouping{}
+		}
+	}
+	t0 := time.Unix(1700000000, 0)
+	it, err := build(expr, nil, EvalParams{Start: t0, End: t0.Add(time.Second), Step: time.Second})
+	vsymAssert(err == nil, "an aggregation over vector(n) builds")
+	n := 0
+	var st Step
+	for it.Next(&st) {
+		vsymAssert(len(st.Samples) == 1, "one series in, one series out")
+		vsymAssert(st.Samples[0].Data == o.want, "the value is the aggregate of the single input")
+		vsymAssert(len(st.Samples[0].Set.AsLokiAPI()) == 0, "the series has no labels")
+		n++
+	}
+	vsymAssert(n == 2 && it.Err() == nil, "one value per step")
+	vsymReach("C11_over_vector")
+}
